@@ -13,7 +13,7 @@ from vf.core import Result, lib
 ID = "C12"
 TITLE = "Black-oil correlations are continuous and correctly ordered at the bubble point"
 LEVEL = "exploration"
-BUDGET = {"quick": 6000, "thorough": 1500000}
+BUDGET = {"quick": 12000, "thorough": 1500000}
 SHRINK = {"quick": True, "thorough": True}
 RULE = (
     "Hypothesis draws an oil (T 80..350 F, API 12..55, gas gravity 0.56..1.3, initial GOR log-uniform 20..2500 "
